@@ -203,11 +203,22 @@ impl<S: BuildHasher + Clone + 'static> ExpirationMap<S> {
 
     pub fn try_cleanup(&self, now: Time) -> Result<Option<HashMap<u64, u64, S>>, CacheError> {
         let bucket_num = cleanup_bucket(now);
-        Ok(self
-            .buckets
-            .write()
-            .remove(&bucket_num)
-            .map(|bucket| bucket.map))
+        let mut m = self.buckets.write();
+
+        // Every bucket up to the cleanup bucket is due: ticks can be late or further apart
+        // than one bucket.
+        let due: Vec<i64> = m.keys().filter(|b| **b <= bucket_num).copied().collect();
+        if due.is_empty() {
+            return Ok(None);
+        }
+
+        let mut items = HashMap::with_hasher(self.hasher.clone());
+        for b in due {
+            if let Some(bucket) = m.remove(&b) {
+                items.extend(bucket.map);
+            }
+        }
+        Ok(Some(items))
     }
 
     pub fn hasher(&self) -> S {
